@@ -1,7 +1,7 @@
 """C07 -- detection does not depend on position or surrounding unrelated text.  M/G: V2Match at threshold 0.5 (fuseRanges as built, replayed stage by stage).  T: X alone vs P.X.S, TraceV2 Pair(shift); the known clamp finding is recognised by its hook signature."""
 import time
 from lib import vlib
-from checks.v2common import Acc, trace_leg, match_model, match_replay
+from checks.v2common import pad_leg, Acc, trace_leg, match_model, match_replay
 PID = "C07"
 def run():
     t0 = time.time(); v = vlib.Verdict(PID); acc = Acc()
@@ -9,6 +9,7 @@ def run():
     match_model(acc, ["T50"])
     match_replay(v, acc, ["T50"], 4 if th else 3, 6 if th else 5)               # the fusion-rich threshold: offsets, clamp, filter
     match_replay(v, acc, ["T80"], 4, 6)                                          # documents no longer than q at either end of the input (run filter, window ends)
+    pad_leg(v, acc)                                       # the read buffer under the tokenizer: multi-byte text at every alignment
     recs, lines = trace_leg(v, acc, "c07", [PID])
     ps = [r for r in lines if r.get("ev") == "pair"]
     acc.nontrivial = len({r["label"] for r in ps}); acc.extra["pairs"] = len(ps)
